@@ -7,7 +7,7 @@ import tempfile
 from .. import core, impl, gen, graphlab as GL, linelab as LL
 from ..core import cstr, clist, copt
 
-DEPS = ['Tables', 'Regexes', 'K_cigar', 'K_numarr']
+DEPS = ['Tables', 'Regexes', 'K_cigar', 'K_numarr', 'K_edge2', 'K_fromto']
 MODEL_TARGETS = ['Corr/Linec.vo']
 IMPORTS = LL.IMPORTS
 ASSUMPTIONS = ["arguments of the public API are strings (values of other Python types are outside the property)",
@@ -20,8 +20,10 @@ LEVEL_TEXT = ("Theorems in coq/Props/C07.v over Model/Line.v/Codec.v (line const
               "valid lines is compared with the model inside Coq. Oracle: every public entry point (Line, Gfa, add_line, "
               "from_file, lookups, removals, renames, get/set/validate, str, bin/gfapy-validate) is driven with exhaustive short "
               "texts, single-point mutations of valid documents and hostile arguments at levels 0-3; anything but success or a "
-              "gfapy.Error, and any call exceeding the watchdog, is a failure. PARTIAL: the graph-level entry points are "
-              "decided by the oracle, not proved.")
+              "gfapy.Error, and any call exceeding the watchdog, is a failure. For the graph model (add_line/rm/rename of Model/Graph.v, tied to gfapy by the "
+              "history correspondences of C02/C05/C08/C09) every operation on every state ends in a state or a gfapy error, "
+              "removals possibly in the RecursionError of the checked cascade. PARTIAL: the remaining entry points (files, "
+              "lookups, get/set/validate, str) are decided by the oracle, not proved.")
 RULE = ("all lines of up to 3 fields over a 9-symbol field alphabet per record type (exhaustive), all single-character "
         "substitutions/deletions/insertions at sampled positions of generated valid documents, hostile API arguments (empty, "
         "'*', tabs, newlines, very long, non-existent names, reserved names); versions gfa1/gfa2/unknown; levels 0-3. "
